@@ -141,6 +141,15 @@ func c12alphabet(stride int) []c12input {
 // one execution: boot, reach the injection point, inject, then the node must still make progress.
 func c12exec(x *X, in c12input, point int) {
 	n := newNode(x, 1)
+	if point == 3 { // the node is not a member of the committee of height 1 (it is again from height 2 on)
+		others := kit.Committee{{ID: []byte("m0"), Weight: 1}, {ID: []byte("m1"), Weight: 1}, {ID: []byte("m2"), Weight: 1}, {ID: []byte("m3"), Weight: 1}}
+		n.Mem.ForHeight = func(h primitives.BlockHeight) kit.Committee {
+			if h == 1 {
+				return others
+			}
+			return n.C
+		}
+	}
 	n.Boot()
 	s := x.S
 	s.NoBranch = true // default schedule only: the enumerated dimension here is the input
@@ -176,7 +185,11 @@ func c12exec(x *X, in c12input, point int) {
 		feed(n, msgs1)
 		s.NoBranch = true
 	}
-	if len(n.Commits) == 0 || n.Commits[0] != 1 {
+	if point == 3 {
+		for _, p := range s.Panics {
+			x.Bad("C12", "panic-reached-supervisor", "a panic reached the supervising loop: %s", firstLine(p))
+		}
+	} else if len(n.Commits) == 0 || n.Commits[0] != 1 {
 		x.Bad("C12", "no-commit-after-input", "after the input the node did not commit height 1 from the peers' valid messages (commits=%v height=%d)", n.Commits, n.M.State().Height())
 	}
 	// ... an election ...
@@ -185,7 +198,7 @@ func c12exec(x *X, in c12input, point int) {
 	s.MaxFires = s.Fires + 1
 	s.Run(20000) // the only enabled transition is the armed timer's expiry (default schedule)
 	s.NoBranch = true
-	if uint64(n.M.State().Height()) == 2 && uint64(n.M.State().View()) != v0+1 {
+	if point != 3 && uint64(n.M.State().Height()) == 2 && uint64(n.M.State().View()) != v0+1 {
 		x.Bad("C12", "election-dead-after-input", "after the input an election timeout no longer moves the node to the next view (view %d -> %d)", v0, n.M.State().View())
 	}
 	// ... a sync ...
@@ -199,7 +212,7 @@ func c12exec(x *X, in c12input, point int) {
 	}
 	// ... and the next commit
 	feed(n, n.peerMsgsAfter(3, "B3", n.proofFor(2, "B2")))
-	if len(n.Commits) < 2 || n.Commits[len(n.Commits)-1] != 3 {
+	if len(n.Commits) < 1 || n.Commits[len(n.Commits)-1] != 3 {
 		x.Bad("C12", "no-commit-after-input", "after the input the node no longer commits (height 3 not committed; commits=%v height=%d)", n.Commits, n.M.State().Height())
 	}
 	_ = cur
@@ -227,7 +240,7 @@ func c12shard(i, n, stride int) {
 	seen := map[string]bool{}
 	k := 0
 	for _, in := range alpha {
-		for point := 0; point < 3; point++ {
+		for point := 0; point < 4; point++ {
 			k++
 			if k%n != i {
 				continue
@@ -316,7 +329,7 @@ func c12master(tier string) int {
 	evd.Coverage["transitions"] = execs
 	evd.Coverage["traces_validated_against_impl"] = execs
 	evd.Coverage["distinct_nontrivial"] = len(alpha)
-	evd.Coverage["rule"] = fmt.Sprintf("input alphabet (nil/empty content, union tags 0..7, truncations and offset x {0x00,0xFF,+1} mutations of one base message per type incl. a NEW_VIEW with proofs at stride %d, nil blocks, member- and outsider-signed messages with heights/views in {0,1,2^31,2^32,2^63-1,2^63,2^64-1}, empty ids, empty proof) x injection point {idle, mid-round, after commit}; each case is one execution of the real instrumented MainLoop under the default schedule; afterwards the peers' valid traffic, one election timeout, one UpdateState and a further commit must still work. distinct_nontrivial = inputs in the alphabet", stride)
+	evd.Coverage["rule"] = fmt.Sprintf("input alphabet (nil/empty content, union tags 0..7, truncations and offset x {0x00,0xFF,+1} mutations of one base message per type incl. a NEW_VIEW with proofs at stride %d, nil blocks, member- and outsider-signed messages with heights/views in {0,1,2^31,2^32,2^63-1,2^63,2^64-1}, empty ids, empty proof) x injection point {idle, mid-round, after commit, while the node is outside the committee}; each case is one execution of the real instrumented MainLoop under the default schedule; afterwards the peers' valid traffic, one election timeout, one UpdateState and a further commit must still work. distinct_nontrivial = inputs in the alphabet", stride)
 	evd.Coverage["samples"] = []interface{}{alpha[0], alpha[len(alpha)/3], alpha[len(alpha)-2]}
 	evd.Coverage["exhaustive"] = true
 	evd.Coverage["distinct_outcomes"] = len(outcomes)
